@@ -235,6 +235,21 @@ Theorem C05_boundary_iterators : forall (k : kind) (s : mesh), k <> KM -> bu_exa
 Proof. exact boundary_iter_exact. Qed.
 Print Assumptions C05_boundary_iterators.
 
+(* ---- BoundaryItemIter: between two valid positions -- undoes ++ and ++ undoes --  (b_at i = the valid iterator on the
+   not-deleted boundary entity i; is_boundary defined on every not-deleted entity, i.e. the incidence guard holds) *)
+Theorem C05_boundary_back : forall n del rdel, (forall i, i < n -> rdel i = Some (del i)) ->
+  forall bd isb, (forall i, i < n -> del i = false -> isb i = Some (bd i)) ->
+  (forall i b', i < n -> negb (del i) && bd i = true ->
+     b_next rdel n isb (b_at n i) = Some b' -> b_valid b' = true -> b_prev rdel n isb b' = Some (b_at n i)) /\
+  (forall j b', j < n -> negb (del j) && bd j = true ->
+     b_prev rdel n isb (b_at n j) = Some b' -> b_valid b' = true -> b_next rdel n isb b' = Some (b_at n j)).
+Proof.
+  intros n del rdel Hr bd isb Hb. split.
+  - exact (boundary_prev_next n del rdel Hr bd isb Hb).
+  - exact (boundary_next_prev n del rdel Hr bd isb Hb).
+Qed.
+Print Assumptions C05_boundary_back.
+
 Theorem C05_builders_bhfhf : forall s, bu_exact s -> wf_iter s -> ebu s = true -> fbu s = true ->
   forall hf, live_f s (hf / 2) = true ->
   forall x, In x (clist BHFHF s hf) <-> exists he, In he (halfface s hf) /\ inc_hehf s (opp he) x /\ bnd_hf s x.
